@@ -80,6 +80,7 @@ enum {
     SVT_VERIF_EV_SEG_START, /* a=segments ptr, b=segment index, c=picture number, d=tile group */
     SVT_VERIF_EV_SEG_SB, /* a=segments ptr, b=segment index, c=sb x | y<<16, d=picture number */
     SVT_VERIF_EV_SEG_DONE, /* a=segments ptr, b=segment index, c=picture number */
+    SVT_VERIF_EV_HB_RELEASE = 48, /* H6 decoder hand-off published: a=flag address */
     SVT_VERIF_EV_USER = 64,
 };
 
